@@ -6,10 +6,7 @@
    Name and object-path validation is the model of C10 (C10/Model.v, tied to the code there).
 
    Messages are abstracted to what `matches` looks at: the message type, five header fields and the
-   body arguments.  Body arguments are drawn from the nine shapes the harness can build; for the one
-   place where the code reads the body *bytes* without looking at its signature
-   (`deserialize_unchecked::<BusName>` for arg0namespace) the little-endian D-Bus encoding of those
-   shapes is part of the model ([wire]). *)
+   body arguments.  Body arguments are drawn from the nine shapes the harness can build. *)
 From ZV Require Import Base.Bytes Base.Res C10.Model.
 
 (* str::split_once(c): split at the first occurrence of c *)
@@ -159,54 +156,25 @@ Record msg := {
   m_destination : option busname;
   m_body : list arg }.
 
-(* D-Bus little-endian encoding of a body (the message body starts 8-aligned, offset 0) *)
-Definition pad (al : nat) (out : bytes) : bytes :=
-  out ++ repeat x00 ((al - (List.length out) mod al) mod al).
-Definition le32 (n : N) : bytes := [nb n; nb (n / 256); nb (n / 65536); nb (n / 16777216)].
-Definition w_str (s out : bytes) : bytes := pad 4 out ++ le32 (len s) ++ s ++ [x00].
-Definition wire_arg (out : bytes) (a : arg) : bytes :=
-  match a with
-  | AStr s | APath s => w_str s out
-  | AU32 n => pad 4 out ++ le32 n
-  | AByte b => out ++ [b]
-  | ASig g => out ++ [nb (len g)] ++ g ++ [x00]
-  | AVarStr s => w_str s (out ++ [x01; "s"%byte; x00])
-  | AVarPath s => w_str s (out ++ [x01; "o"%byte; x00])
-  | AArrStr s => pad 4 out ++ le32 (5 + len s) ++ le32 (len s) ++ s ++ [x00]
-  | AStructSU s n => pad 4 (w_str s (pad 8 out)) ++ le32 n
-  end.
-Definition wire (body : list arg) : bytes := fold_left wire_arg body [].
-
-Definition rd32 (l : bytes) : option N :=
-  match l with
-  | a :: b :: c :: d :: _ => Some (bn a + 256 * bn b + 65536 * bn c + 16777216 * bn d)%N
-  | _ => None
-  end.
-(* zvariant/src/dbus/de.rs deserialize_str with signature "s" at position 0: u32 length, that many
-   bytes (must exist, must not contain NUL), then one more byte which must exist and be NUL
-   (fix: e43e6421).  (UTF-8 validity is not modelled: every result is next fed to the bus-name
-   validator, which rejects any non-ASCII byte.) *)
-Definition read_str0 (data : bytes) : option bytes :=
-  match rd32 data with
-  | None => None
-  | Some n =>
-      let rest := skipn 4 data in
-      if (len rest <? n)%N then None
-      else let s := takeN n rest in
-           if existsb (fun c => beq c x00) s then None
-           else match dropN n rest with
-                | t :: _ => if beq t x00 then Some s else None
-                | [] => None
-                end
+(* `msg.body().signature().to_string_no_parens().starts_with('s')` (mod.rs:289-296, fix 3ae57b16).  The body
+   signature is the concatenation of the arguments' signatures; it is stored without outer parentheses
+   (fields.rs: to_string_no_parens) and parsed back, so a body whose only argument is the struct (su) has the
+   signature "su", like a body made of a string and a u32.  An empty body has the empty signature. *)
+Definition body_sig_starts_with_s (body : list arg) : bool :=
+  match body with
+  | AStr _ :: _ => true
+  | [AStructSU _ _] => true
+  | _ => false
   end.
 
-(* what `msg.body().deserialize_unchecked::<BusName>()` sees before validation.  A body that starts
-   with a string, an object path or a struct starting with a string has that string at offset 0
-   (same encoding); everything else is decoded from the bytes. An empty body has no bytes. *)
+(* what `msg.body().deserialize_unchecked::<BusName>()` sees before validation, on the bodies that pass the
+   test above: the string at offset 0 (a struct is 8-aligned, the body starts 8-aligned, so the first field of
+   a leading struct is at offset 0 too).  The decoder does not look at the signature; on any other body this
+   read is not reached any more. *)
 Definition arg0_raw (body : list arg) : option bytes :=
   match body with
-  | AStr s :: _ | APath s :: _ | AStructSU s _ :: _ => Some s
-  | _ => read_str0 (wire body)
+  | AStr s :: _ | AStructSU s _ :: _ => Some s
+  | _ => None
   end.
 
 (* `msg.body().deserialize::<Structure>()` then `.fields()` (mod.rs:293-298).  The body signature is
@@ -274,9 +242,10 @@ Definition chk_path (r : rule) (m : msg) : bool :=                       (* 264-
                end
   | None => true
   end.
-Definition chk_arg0ns (r : rule) (m : msg) : bool :=                     (* 277-287 *)
+Definition chk_arg0ns (r : rule) (m : msg) : bool :=                     (* 286-306 *)
   match r_arg0ns r with
   | Some ns =>
+      if negb (body_sig_starts_with_s (m_body m)) then false else
       match arg0_raw (m_body m) with
       | Some a0 =>
           if validate_bus a0 then
